@@ -117,6 +117,19 @@ func c16XX(ip []string) bool {
 type c16pkg struct {
 	Dir     string   `json:"dir"` // from the scratch root: gp/src/... or work/...
 	Imports []string `json:"imports"`
+	// Files: the source files of the package in directory order (empty: the single file p.go with
+	// all imports). File k declares the next N imports of Imports, so Imports is the concatenation
+	// of the files' import lists in directory order: that union is the package the models load
+	// (Imports/Cases.v mkpkgf). Skip: further files of the directory that a loader must leave out
+	// (a _test.go file, files excluded by a build constraint line or by a GOOS file name suffix);
+	// each of them imports a package that does not exist and declares Dir again.
+	Files []c16file `json:"files,omitempty"`
+	Skip  []string  `json:"skip,omitempty"`
+}
+
+type c16file struct {
+	Name string `json:"name"`
+	N    int    `json:"n"`
 }
 
 type c16case struct {
@@ -1323,6 +1336,60 @@ func (g *c16gen) retryRegionCase() *c16case {
 	return c
 }
 
+// ---------------------------------------------------------------- packages of several files
+
+// splitFiles lays the packages of a program out as directories of 1-3 source files plus files
+// that must be skipped. The import graph (Pkgs[i].Imports, in order) is unchanged: the imports of
+// a package are dealt to its files as consecutive runs in directory order, so every import — the
+// closing edge of a cycle, the edges of a diamond to its shared dependency — lies in the first, a
+// middle or the last file, after files that import nothing or other packages. File names are drawn
+// so that directory order is not the order of writing (z.go/b.go), skipped files come first, in
+// between or last. The package of a file entry stays the file p.go (only that file is evaluated).
+func (g *c16gen) splitFiles(c *c16case) {
+	pools := [][]string{{"p.go"}, {"a1.go", "a2.go"}, {"z.go", "b.go"}, {"p.go", "m.go"}, {"a1.go", "a2.go", "a3.go"}, {"z.go", "b.go", "k.go"}, {"p.go", "q.go", "main.go"}}
+	skips := []string{"a0_test.go", "zz_test.go", "n_test.go", "a0_ign.go", "zz_ign.go", "c_ign.go", "a0_plan9.go", "n_plan9.go", "zz_plan9.go"}
+	for i := range c.Pkgs {
+		p := &c.Pkgs[i]
+		if c.File && p.Dir == c.mainDir() {
+			continue
+		}
+		names := append([]string{}, pools[g.r.intn(len(pools))]...)
+		sort.Strings(names) // directory order
+		var skip []string
+		for _, k := range []int{g.r.intn(len(skips)), g.r.intn(len(skips))} {
+			if g.r.chance(45) && (len(skip) == 0 || skip[0] != skips[k]) {
+				skip = append(skip, skips[k])
+			}
+		}
+		if len(names) == 1 && len(skip) == 0 {
+			continue
+		}
+		cnt := make([]int, len(names))
+		// a package with one import and several files: the import is as likely in a later file
+		for range p.Imports {
+			cnt[g.r.intn(len(names))]++
+		}
+		p.Files = nil
+		for k, n := range names {
+			p.Files = append(p.Files, c16file{Name: n, N: cnt[k]})
+		}
+		sort.Strings(skip)
+		p.Skip = skip
+	}
+}
+
+// laterFileImport: some package of the program declares an import in a file that is not its first.
+func (c *c16case) laterFileImport() bool {
+	for _, p := range c.Pkgs {
+		for k, f := range p.Files {
+			if k > 0 && f.N > 0 {
+				return true
+			}
+		}
+	}
+	return false
+}
+
 // ---------------------------------------------------------------- rendering a program
 
 // c16Source renders a package. importAs (optional) gives, per import, the path written in the
@@ -1375,9 +1442,85 @@ func (c *c16case) mainDir() string {
 func (c *c16case) files() map[string]string {
 	m := map[string]string{}
 	for i, p := range c.Pkgs {
-		m[p.Dir+"/p.go"] = c16Source(i, p, p.Dir == c.mainDir(), c.Quiet, nil)
+		c16PkgFiles(m, i, p, p.Dir == c.mainDir(), c.Quiet, nil)
 	}
 	return m
+}
+
+// c16PkgFiles renders the files of a package into m: p.go, or the files of p.Files, each with its
+// share of the imports (the first one declares Dir and prints "init"; main is in the last one),
+// and the files of p.Skip.
+func c16PkgFiles(m map[string]string, i int, p c16pkg, isMain, quiet bool, importAs []string) {
+	if len(p.Files) == 0 {
+		m[p.Dir+"/p.go"] = c16Source(i, p, isMain, quiet, importAs)
+		return
+	}
+	if importAs == nil {
+		importAs = p.Imports
+	}
+	name := fmt.Sprintf("pk%d", i)
+	if isMain {
+		name = "main"
+	}
+	lo := 0
+	for k, f := range p.Files {
+		hi := lo + f.N
+		var b strings.Builder
+		fmt.Fprintf(&b, "package %s\n\n", name)
+		first, last := k == 0, k == len(p.Files)-1
+		if quiet {
+			for j := lo; j < hi; j++ {
+				fmt.Fprintf(&b, "import x%d %q\n", j, importAs[j])
+			}
+			if first {
+				fmt.Fprintf(&b, "\nvar Dir = %q\n", p.Dir)
+			} else {
+				fmt.Fprintf(&b, "\nvar File%d = Dir\n", k)
+			}
+			for j := lo; j < hi; j++ {
+				fmt.Fprintf(&b, "\nvar _ = x%d.Dir\n", j)
+			}
+			if isMain && last {
+				fmt.Fprintf(&b, "\nfunc main() {}\n")
+			}
+		} else {
+			prints := first || hi > lo || (isMain && last)
+			if prints {
+				fmt.Fprintf(&b, "import (\n\t\"fmt\"\n")
+				for j := lo; j < hi; j++ {
+					fmt.Fprintf(&b, "\tx%d %q\n", j, importAs[j])
+				}
+				fmt.Fprintf(&b, ")\n\n")
+			}
+			if first {
+				fmt.Fprintf(&b, "var Dir = %q\n\n", p.Dir)
+			} else {
+				fmt.Fprintf(&b, "var File%d = Dir\n\n", k)
+			}
+			if first || hi > lo {
+				fmt.Fprintf(&b, "func init() {\n")
+				if first {
+					fmt.Fprintf(&b, "\tfmt.Println(\"init\", Dir)\n")
+				}
+				for j := lo; j < hi; j++ {
+					fmt.Fprintf(&b, "\tfmt.Println(\"edge\", Dir, %q, x%d.Dir)\n", p.Imports[j], j)
+				}
+				fmt.Fprintf(&b, "}\n")
+			}
+			if isMain && last {
+				fmt.Fprintf(&b, "\nfunc main() { fmt.Println(\"main\", Dir) }\n")
+			}
+		}
+		m[p.Dir+"/"+f.Name] = b.String()
+		lo = hi
+	}
+	for _, sk := range p.Skip {
+		head := ""
+		if !strings.HasSuffix(sk, "_test.go") && !strings.HasSuffix(sk, "_plan9.go") {
+			head = "//go:build ignore\n// +build ignore\n\n"
+		}
+		m[p.Dir+"/"+sk] = fmt.Sprintf("%spackage %s\n\nimport _ \"nosuch/skipped\"\n\nvar Dir = \"skipped\"\n", head, name)
+	}
 }
 
 // refFiles is the program as given to the toolchain when it refuses relative imports inside
@@ -1399,7 +1542,7 @@ func (c *c16case) refFiles() map[string]string {
 				as[j] = strings.Join(t[len(w.gsrc):], "/")
 			}
 		}
-		m[p.Dir+"/p.go"] = c16Source(i, p, p.Dir == c.mainDir(), c.Quiet, as)
+		c16PkgFiles(m, i, p, p.Dir == c.mainDir(), c.Quiet, as)
 	}
 	return m
 }
@@ -1576,6 +1719,17 @@ func (c *c16case) coq() string {
 		var is []string
 		for _, ip := range p.Imports {
 			is = append(is, coqRawStr(ip))
+		}
+		if len(p.Files) > 0 {
+			// the package of the models is the union of the files' imports, in directory order
+			var fl []string
+			lo := 0
+			for _, f := range p.Files {
+				fl = append(fl, coqList(is[lo:lo+f.N]))
+				lo += f.N
+			}
+			ps = append(ps, fmt.Sprintf("mkpkgf %s %s", coqRawStr(p.Dir), coqList(fl)))
+			continue
 		}
 		ps = append(ps, fmt.Sprintf("mkpkg %s %s", coqRawStr(p.Dir), coqList(is)))
 	}
@@ -2319,10 +2473,14 @@ func runC16(args []string) error {
 		ref  c16out
 		err  error
 	}
-	// the layout on disk (symbolic links) cycles within each stream
+	// the layout on disk (symbolic links) cycles within each stream; every other program of a
+	// stream has packages of several files (VERIF_C16_FILES=all|none: every / no program)
 	perStream := map[string]int{}
 	for _, c := range progs {
 		key := strings.SplitN(c.Stream, ":", 2)[0]
+		if mf := os.Getenv("VERIF_C16_FILES"); mf != "none" && (mf == "all" || perStream[key]%2 == 1) {
+			g.splitFiles(c)
+		}
 		g.chooseLinks(c, perStream[key])
 		perStream[key]++
 	}
@@ -2342,6 +2500,32 @@ func runC16(args []string) error {
 		sm.Evaluations++
 		sm.ImplComparisons++
 		sm.RefComparisons++
+		{
+			multi := false
+			for _, p := range c.Pkgs {
+				if len(p.Files) > 0 {
+					multi = true
+					sm.count(fmt.Sprintf("e2e:files:packages-of-%d-files", len(p.Files)))
+					for k, f := range p.Files {
+						if f.N > 0 {
+							sm.count(fmt.Sprintf("e2e:files:imports-in-file-%d-of-%d", k+1, len(p.Files)))
+						}
+					}
+					for _, sk := range p.Skip {
+						sm.count("e2e:files:skipped-file:" + sk[strings.Index(sk, "_")+1:])
+					}
+				}
+			}
+			if multi {
+				sm.count("e2e:files:programs-with-several-files")
+				if r.ref.Err == "cycle" {
+					sm.count("e2e:files:cycle-programs")
+					if c.laterFileImport() {
+						sm.count("e2e:files:cycle-programs-with-an-import-in-a-later-file")
+					}
+				}
+			}
+		}
 		if strings.HasPrefix(c.Stream, "cycle-matrix:") {
 			f := strings.Split(c.Stream, ":")
 			sm.count("e2e:cycle-matrix")
